@@ -173,7 +173,7 @@ def check_one(ctx, g, label, cases, obs, reqs, edit=None, seconds=5):
     cases.append(case); obs.append({"steps": steps}); reqs.append(case)
 
 
-def run(ctx):
+def _run_main(ctx):
     rng = ctx.rng
     cases, obs, reqs = [], [], []
     # exhaustive small scope: all multigraphs on <=2 nodes (thorough: 3) over 9 archetypes with <=2 edges
@@ -282,3 +282,11 @@ def run(ctx):
         check_one(ctx, g, "long_chain", cases, obs, reqs, edit=({"long_chain": depth, "must_succeed": True}, lambda graph: None),
                   seconds=60)
     ctx.compare("graphs", cases, obs, reqs)
+
+
+def run(ctx):
+    _run_main(ctx)
+    # history independence: the same call on a live graph object with a history of edits / calls and on a twin rebuilt
+    # from its public state (harness/history.py)
+    import history
+    history.run(ctx, ["infer"], {"infer": "infer_types on a graph object with a history"})
